@@ -475,7 +475,25 @@ Lemma call_helper_S (f : nat) (hid : helper_id) (h : helper_v) (s : rstate) :
               rbind (log_write (`"bhm(" ++ hv_name h ++ `")") s) (fun _ s1 => opt_render reg data ft f (hv_tpl h) s1)
           | HLocal n =>
               let txt := `"local(" ++ n ++ `":" ++ params_text (hv_params h) ++ `")" in
-              if starts_with (`"f:") n
+              if starts_with (`"c:") n
+              then (* logs the usual line, captures its block body with Renderable::renders (a fresh
+                      in-memory output that never fails, the same render context otherwise), then
+                      writes "<", the captured text, ">"; on error the error propagates unchanged and
+                      nothing of the body reaches the real output *)
+                   match hv_tpl h with
+                   | None => ROk tt (log_entry s txt)
+                   | Some t =>
+                       let s0 := log_entry s txt in
+                       match render_template reg data ft f t (set_out s0 (out_new None)) with
+                       | ROk _ s2 =>
+                           rbind (out_write (`"<") (set_out s2 (s_out s0))) (fun _ s3 =>
+                           rbind (out_write (out_text (s_out s2)) s3) (fun _ s4 => out_write (`">") s4))
+                       | RErr e s2 => RErr e (set_out s2 (s_out s0))
+                       | RPanic p => RPanic p
+                       | RFuel => RFuel
+                       end
+                   end
+              else if starts_with (`"f:") n
               then (* logs the usual line, then write!(out, "literal-0123456789") — a format string
                       without arguments *)
                    out_write (`"literal-0123456789") (log_entry s txt)
@@ -798,7 +816,13 @@ Class crel_ok (Rok Rerr : crit_t -> crit_t -> Prop) : Prop := {
   R_sub_ok : forall o d t o' d' t',
     Rok (out_new None, true, t) (o', d', t') -> Rok (o, d, t) (o, d, t');
   R_sub_err : forall o d t o' d' t',
-    Rerr (out_new None, true, t) (o', d', t') -> Rerr (o, d, t) (o, d', t')
+    Rerr (out_new None, true, t) (o', d', t') -> Rerr (o, d, t) (o, d', t');
+  (* the capture bracket (Renderable::renders): private buffer before, the flag
+     as it is; buffer restored after, the flag as the body left it *)
+  R_cap_ok : forall o d t o' d' t',
+    Rok (out_new None, d, t) (o', d', t') -> Rok (o, d, t) (o, d', t');
+  R_cap_err : forall o d t o' d' t',
+    Rerr (out_new None, d, t) (o', d', t') -> Rerr (o, d, t) (o, d', t')
 }.
 
 Definition okc (Rok : crit_t -> crit_t -> Prop) {A} (c0 : crit_t) : A -> rstate -> Prop :=
@@ -1050,7 +1074,28 @@ Proof. rewrite expand_as_name_S. thr_go IH. Qed.
 Lemma step_ep p s : thr s (expand_param reg data ft (S f) p s).
 Proof. rewrite expand_param_S. thr_go IH. Qed.
 Lemma step_ch hid h s : thr s (call_helper reg data ft (S f) hid h s).
-Proof. rewrite call_helper_S. cbv zeta. thr_go IH. Qed.
+Proof.
+  rewrite call_helper_S. cbv zeta.
+  destruct hid; try solve [thr_go IH].
+  (* HLocal: the capture bracket of the "c:" mode *)
+  cbn [has_call_inner]. intros c0 Hs.
+  destruct (starts_with _ name); [|repeat thr_step IH].
+  destruct (hv_tpl h) as [t|]; [|thr_leaf].
+  match goal with
+  | |- sat (match render_template _ _ _ _ _ ?s1 with _ => _ end) _ _ _ =>
+      pose proof (h_rt IH t s1 _ (R_refl _)) as Y;
+      destruct (render_template reg data ft f t s1) as [u s2|e s2|p|]; cbn [sat] in Y |- *; try exact I
+  end.
+  - assert (Hc : Rok c0 (crit (set_out s2 (s_out (log_entry s (`"local(" ++ name ++ `":" ++ params_text (hv_params h) ++ `")")))))).
+    { unfold okc in Y. eapply R_trans; [exact Hs|]. unfold crit in *.
+      cbn [s_out s_esc_trace s_disable_escape set_out log_entry set_log] in *.
+      eapply R_cap_ok. exact Y. }
+    revert Hc. generalize (set_out s2 (s_out (log_entry s (`"local(" ++ name ++ `":" ++ params_text (hv_params h) ++ `")")))).
+    intros s3 Hs3. clear Hs. rename Hs3 into Hs. repeat thr_step IH.
+  - unfold errc in *. eapply R_etrans; [apply R_sub; exact Hs|]. unfold crit in *.
+    cbn [s_out s_esc_trace s_disable_escape set_out log_entry set_log] in *.
+    eapply R_cap_err. exact Y.
+Qed.
 Lemma step_ed dt s : thr s (eval_decorator reg data ft (S f) dt s).
 Proof. rewrite eval_decorator_S. thr_go IH. Qed.
 Lemma step_rp dt s : thr s (render_partial reg data ft (S f) dt s).
